@@ -29,7 +29,7 @@ def rerun_items(ctx):
                 override[0] = ['error']
             items.append({'wf': wf, 'oc': oc, 'script': script, 'input': inp, 'inputs': inputs,
                           'schedule': gen.noise_schedule(rng, max_us=rng.choice([100, 600])),
-                          'extra': {'runs': runs, 'overlap': mode == 'overlap', 'prepare_n': rng.choice([0, 1]), 'timeout_ms': 30000},
+                          'extra': {'runs': runs, 'overlap': mode == 'overlap', 'prepare_n': rng.choice([0, 1]), 'timeout_ms': 30000, 'scribble_results': True},
                           'want_override': override, 'mode': mode, 'at': '%s x%d' % (mode, nruns)})
         return items
     return f
@@ -105,6 +105,18 @@ def after_failed_shapes(ctx):
                           'schedule': None, 'extra': {'runs': runs, 'overlap': overlap, 'timeout_ms': 30000},
                           'want': override[len(pattern) - 1], 'want_override': override,
                           'nomeaning': True, 'mode': 'per-run-deploy-config', 'at': 'deploy-config %s overlap=%s' % (pattern, overlap)})
+        # literal lists and maps in the workflow output and in a step input, next to expressions: every run gets its own copies,
+        # whatever the caller of an earlier run did to the result it was handed (the driver scribbles over every result)
+        wf4 = {'steps': {'a': {'kind': 'plugin', 'pstep': 'work', 'fields': {'input': tmap({'id': lit('a'), 's': ref('input.x'),
+                                                                                            'deps': tmap({'cfg': lit({'mode': 'fast', 'tags': ['x', 'y']}), 'l': lit(['p', 'q'])})})}}},
+               'outputs': {'success': tmap({'r': ref('steps.a.outputs.success.tok'), 'meta': lit({'source': 'engine', 'labels': ['greeting', 'demo']}),
+                                            'tags': lit(['one', 'two']), 'nested': tmap({'fixed': lit({'k': 'v'}), 'r': ref('input.x')})})}}
+        for nruns, overlap in ([(3, False), (2, True)] if ctx.quick else [(3, False), (4, False), (2, True), (3, True)]):
+            inputs = [dict(base, x='run%d' % k) for k in range(nruns)]
+            runs = [{'input': i, 'start_delay_ms': 4 * k if overlap else 0} for k, i in enumerate(inputs)]
+            items.append({'wf': wf4, 'oc': {'a': okoc()}, 'script': {'a': {'exec': {'out': 'success', 'delay_ms': 8}}}, 'input': inputs[-1], 'inputs': inputs,
+                          'schedule': None, 'extra': {'runs': runs, 'overlap': overlap, 'timeout_ms': 30000, 'scribble_results': True},
+                          'want_override': {}, 'mode': 'caller-scribbles-over-results', 'at': 'literal data x%d overlap=%s' % (nruns, overlap)})
         return items
     return f
 
